@@ -7,7 +7,7 @@ muts={}
 for l in open(os.environ.get('MUTS','/tmp/mutants.jsonl')):
     m=json.loads(l); muts[m['id']]=m
 res=[json.loads(l) for l in open(sys.argv[1] if len(sys.argv)>1 else '/tmp/mutres.jsonl')]
-surv=[r for r in res if r['status'] in ('survived',)]
+surv=[r for r in res if r['status'] in ('survived','undecided') and (not os.environ.get('KIND') or r['kind']==os.environ['KIND'])]
 local=threading.local()
 def wd():
     if not hasattr(local,'S'):
@@ -20,7 +20,7 @@ def run(r):
     path=os.path.join(S,'trzsz',m['file']); orig=open(os.path.join('/repo/trzsz',m['file']),'rb').read()
     try:
         open(path,'wb').write(orig[:m['start']]+m['repl'].encode()+orig[m['end']:])
-        c=subprocess.run(['/verif/bin/trzszlint','checkall'],env=dict(env,VERIF_REPO=S,VERIF_DIR=V),capture_output=True,text=True,errors='replace')
+        c=subprocess.run([os.environ.get('BIN','/verif/bin/trzszlint'),'checkall'],env=dict(env,VERIF_REPO=S,VERIF_DIR=V),capture_output=True,text=True,errors='replace')
         viol=[l for l in c.stdout.splitlines() if 'status=VIOLATION' in l]
         r=dict(r); r['status']='violation' if viol else 'survived'; r['by']=[l.split()[0] for l in viol]; r['keys']=[l.split('keys=')[1][:200] for l in viol[:2]]
         return r
